@@ -42,6 +42,19 @@ META = {
     "C09": ("outputs", "offline checker over sequence interpolants (Craig + path property)",
             "k>=3 ordered groups: each I_j is a Craig interpolant for the first j groups vs the rest and "
             "I_j and G_(j+1) imply I_(j+1).", TB, "4/C09"),
+    "C18": ("procmon", "AddressSanitizer+UBSan build of the executable under injected-problem, mutation and grammar workloads",
+            "Every run of the sanitizer build (file and pipe mode) must end without signal, sanitizer report or uncaught "
+            "exception, exit in {0,1}; exactly-one-injected-problem scripts must print a diagnostic and exit non-zero; a "
+            "printed diagnostic implies a non-zero exit status; check-sat-free inputs finish within a CPU budget.",
+            "Sanitizers only see executed paths and miss non-adjacent overflows; CPU-time budgets only; gcc ASan+UBSan, NDEBUG as shipped.", "4/C18"),
+    "C20": ("procmon", "differential process monitor: file mode vs chunked pipe mode",
+            "Syntactically valid scripts with hostile layout are run from a file and through -p under several chunkings of "
+            "stdin; stdout and exit status must be byte-identical.",
+            "'Syntactically valid' = accepted by file mode without a syntax error; chunkings sampled, not enumerated.", "4/C20"),
+    "C23": ("procmon", "replicated-run monitor with ASLR on/off and varying environment",
+            "Scripts that print containers (models, cores, interpolants, proofs, assignments) are run 3+1 times; outputs "
+            "and exit status must be byte-identical.",
+            "ASLR is enabled on the machine (checked and recorded); 4 runs per script.", "4/C23"),
     "C29": ("scriptdiff", "differential runtime monitoring on out-of-fragment scripts",
             "Scripts generated with a richer profile than the declared logic; each command must be rejected or every "
             "definitive answer must agree with the reference consensus on the accepted assertions.", TB, "4/C29"),
@@ -102,6 +115,8 @@ ENGINES = [
     {"name": "scriptdiff", "path": "vlib/checks/answers.py, vlib/checks/history.py",
      "serves_properties": ["C01", "C02", "C04", "C05", "C29", "C30"],
      "kind_free_text": "seeded script generator + opensmt executable + reference-solver consensus / self-consistency oracles"},
+    {"name": "procmon", "path": "vlib/checks/procmon.py", "serves_properties": ["C18", "C20", "C23"],
+     "kind_free_text": "process-level monitors of the opensmt executable (sanitizer build, pipe/file differential, replicated runs)"},
     {"name": "outputs", "path": "vlib/checks/models.py, cores.py, itp.py, vlib/outputs.py",
      "serves_properties": ["C03", "C06", "C07", "C08", "C09"],
      "kind_free_text": "offline checkers over what opensmt prints (models, values, assignments, cores, interpolants)"},
